@@ -5,6 +5,7 @@ import (
 	"flag"
 	"fmt"
 	"io/ioutil"
+	"math"
 	"os"
 	"os/signal"
 	"regexp"
@@ -184,7 +185,9 @@ func validateFlags() []error {
 	}
 
 	// We limit qps to < 1000 to ensure we don't overload Spanner accidentally.
-	if *qps <= 0 || *qps > 1000 {
+	// The negated form also rejects NaN. A qps so small that the probe interval (1s/qps) does not
+	// fit into a time.Duration is rejected as well: time.NewTicker panics on a non-positive interval.
+	if !(*qps > 0 && *qps <= 1000) || float64(time.Second) / *qps >= float64(math.MaxInt64) {
 		errs = append(errs, fmt.Errorf("qps must be 1 <= qps <= 1000, was %v", *qps))
 	}
 
